@@ -145,6 +145,10 @@ void gen_history(Rng &r, const Profile &pf, Plan &plan) {
     for (unsigned i = 0; i < P; ++i) pnames.push_back(gen_exact_name(r, r.chance(1, 8) && P < 20 ? std::max(2u, gen_len(r, 120)) : 2 + static_cast<unsigned>(r.below(10)), tos(i)));
     for (unsigned i = 0; i < C; ++i) cnames.push_back(gen_exact_name(r, r.chance(1, 8) && C < 20 ? std::max(3u, gen_len(r, 120)) : 3 + static_cast<unsigned>(r.below(10)), "c" + tos(i)));
 
+    if (pf.pct_space_names) {
+        for (auto &n : pnames) if (r.below(100) < pf.pct_space_names) n += " ";
+        for (auto &n : cnames) if (r.below(100) < pf.pct_space_names) n += "  ";
+    }
     std::vector<Step> setup;
     for (auto &n : pnames) { Step s; s.op = OP_DECL_POINT; s.s.push_back(n); setup.push_back(s); }
     for (auto &n : cnames) { Step s; s.op = OP_DECL_ANALOG; s.s.push_back(n); setup.push_back(s); }
@@ -166,8 +170,12 @@ void gen_history(Rng &r, const Profile &pf, Plan &plan) {
             if (r.chance(3, 4)) {
                 unsigned S2 = 1 + static_cast<unsigned>(r.below(r.chance(1, 4) ? 12 : 5));
                 s.i = {1, static_cast<int64_t>(f2bits(bits2f(prate) * static_cast<float>(S2)))};
-            } else {
+            } else if (r.chance(1, 2)) {
                 s.i = {0, static_cast<int64_t>(RATES[r.below(8)])};
+            } else {
+                // the same point rate again, a few ulps away (below the 1e-4 Hz the header comparison resolves)
+                int64_t d = static_cast<int64_t>(r.below(40)) - 20;
+                s.i = {0, static_cast<int64_t>(prate) + d};
             }
             setup.push_back(s);
         }
@@ -186,6 +194,7 @@ void gen_history(Rng &r, const Profile &pf, Plan &plan) {
         if (g == "POINT" || g == "ANALOG") { if (!r.chance(1, 3)) g = groups.size() > 3 ? groups[3 + r.below(groups.size() - 3)] : "FORCE_PLATFORM"; }
         std::string n = "X" + gen_exact_name(r, r.chance(1, 6) ? std::max(2u, gen_len(r, 125)) : 2 + static_cast<unsigned>(r.below(10)), tos(k)); // never a library-owned name
         if (!customs.empty() && r.chance(1, 5)) { g = customs[r.below(customs.size())].first; n = customs[r.below(customs.size())].second; } // replace in place
+        if (pf.pct_space_names && r.below(100) < pf.pct_space_names) { if (r.chance(1, 2)) g += (r.chance(1, 2) ? " " : "  "); else n += " "; }
         customs.push_back(std::make_pair(g, n));
         setup.push_back(make_param_step(r, pf, g, n, true));
     }
